@@ -374,10 +374,10 @@ PROPS = {
         "owned_diffs": ["result", "panic", "alloc", "cap", "crash", "ub"],
         "partial_missing": ["lifting of the generated-code theorems through the hand model for resize / resize_with / mini_vec![x; n] / extend_from_slice is by correspondence only"],
     },
-    "C10": {"modules": ["MiniVecProof.Props.C05", "MiniVecProof.Props.C06"],
+    "C10": {"modules": ["MiniVecProof.Props.C10", "MiniVecProof.Props.C06"],
             "cases": lambda tier, seed: [("debug", corpus("debug", "C10") + iterator_cases(tier, seed, "debug"))],
             "owned_oracles": ["O vec-mismatch", "X signal 11"], "owned_diffs": ["result", "contents", "ub", "crash"],
-            "partial_missing": ["proved: Drain steps never modify the vector and the dangling-cursor iterator yields None from both ends; the yielded sequence itself is checked against std's iterators and the model by correspondence"]},
+            "partial_missing": ["proved for Drain on every storage state (C10_drain_partial): every interleaving of front/back steps yields what the list iterator over es[st..en] yields, exact counts, None for ever after the ends meet, vector untouched by steps, and drop leaves prefix ++ suffix destroying exactly the unyielded elements; Splice, DrainFilter, IntoIter and as_slice: yielded sequences and counts checked against std's iterators and the model by correspondence only"]},
     "C11": {
         "modules": ["MiniVecProof.Props.C11"],
         "cases": lambda tier, seed: [("debug", corpus("debug", "C11") + argument_grid("debug")), ("release", argument_grid("release"))] if tier == "thorough"
